@@ -205,11 +205,25 @@ def corruptions(doc):
             yield f"cycle:mixed:{x} base {y}, {y} nests {x}", "reject", t
 
 
+_LOADS = [0]
+
+
 def try_load(xml: bytes, root="CCSDSPacket"):
     from space_packet_parser.xtce.definitions import XtcePacketDefinition
+    _LOADS[0] += 1
     try:
         with case_alarm(30):
-            d = XtcePacketDefinition.from_xtce(io.BytesIO(xml), root_container_name=root)
+            if _LOADS[0] % 3 == 0:
+                # the documented front door, on a file path that this process has used before with other contents
+                import space_packet_parser
+                from mc import VERIF_ROOT
+                path = os.path.join(VERIF_ROOT, ".work", f"c17_{os.getpid()}.xml")
+                os.makedirs(os.path.dirname(path), exist_ok=True)
+                with open(path, "wb") as f:
+                    f.write(xml)
+                d = space_packet_parser.load_xml(path)
+            else:
+                d = XtcePacketDefinition.from_xtce(io.BytesIO(xml), root_container_name=root)
         return "loaded", d
     except CaseTimeout:
         return "timeout", None
@@ -336,7 +350,7 @@ def run(ctx):
         "rule": "one evaluation = one load attempt (plus graph audit when it loads); distinct non-trivial = distinct corruptions and distinct audited documents",
     }
     return {"level": LEVEL, "tally": tally, "coverage": coverage,
-            "assumptions": ["'rejected at load' = from_xtce raises any exception (RecursionError for cycles) within 30 s",
+            "assumptions": ["every third load goes through space_packet_parser.load_xml on a file path re-used with other contents", "'rejected at load' = from_xtce raises any exception (RecursionError for cycles) within 30 s",
                             "a verbatim duplicate of a container may be rejected or tolerated; if tolerated the graph must be consistent"]}
 
 
